@@ -199,6 +199,37 @@ pub fn run(out_path: &str) {
         uniq!("uniq:unwrap_or_clone", "Arc::unwrap_or_clone", |h: Arc<A>, k: &mut Keep| {
             k.push(Box::new(Arc::unwrap_or_clone(h)));
         });
+        // shared when asked, but the only other owner goes away while the payload is being cloned: the
+        // call's own release of its handle is then the LAST one and must follow the last-owner protocol
+        for api in ["Arc::make_mut", "Arc::make_unique", "OffsetArc::make_mut", "Arc::unwrap_or_clone"] {
+            let h = Arc::new(A::mk(1));
+            let heap = h.heap_ptr() as usize;
+            let other = h.clone();
+            crate::payload::CLONE_HOOK.with(|c| *c.borrow_mut() = Some(Box::new(move || drop(other))));
+            let mut keep: Vec<Box<dyn std::any::Any>> = vec![];
+            let evs = record(heap, || match api {
+                "Arc::make_mut" => {
+                    let mut h = h;
+                    Arc::make_mut(&mut h).set_val(9);
+                    keep.push(Box::new(h));
+                }
+                "Arc::make_unique" => {
+                    let mut h = h;
+                    (**Arc::make_unique(&mut h)).set_val(9);
+                    keep.push(Box::new(h));
+                }
+                "OffsetArc::make_mut" => {
+                    let mut o = Arc::into_raw_offset(h);
+                    o.make_mut().set_val(9);
+                    keep.push(Box::new(o));
+                }
+                _ => keep.push(Box::new(Arc::unwrap_or_clone(h))),
+            });
+            crate::payload::CLONE_HOOK.with(|c| *c.borrow_mut() = None);
+            let g = if api.ends_with("unwrap_or_clone") { "uniq:unwrap_or_clone" } else { "uniq:make_mut" };
+            entry(&mut l, g, api, "shared_then_last", evs);
+            drop(keep);
+        }
         // through a ThinArc: with_arc_mut + get_mut
         for shared in [false, true] {
             let mut t = thin(1);
